@@ -35,7 +35,11 @@ func WithNodeSpacing(spacing float64) Option {
 func WithNodeSize(sizes map[string]graph.Size) Option {
 	return func(o *options) {
 		o.params.NodeSizeFunc = func(n *ig.Node) {
-			n.Size = sizes[n.ID]
+			// nodes that aren't in the map keep the size they have (zero, or the one set by WithNodeFixedSize)
+			if size, ok := sizes[n.ID]; ok {
+				n.W = size.W
+				n.H = size.H
+			}
 		}
 	}
 }
